@@ -9,7 +9,7 @@ LEVEL = 'exploration'
 RULE = ('case = list of 0-8 (non-empty key, value) text pairs (alphabet rich in "=&+%; #" space, NUL, non-ASCII, repeated keys by '
         'drawing keys from a small per-case pool) + an encoding spelling per character (harness encoder: raw if unreserved, "+" or %20 '
         'for space, %XX upper/lower hex, optionally over-encoding unreserved characters) used as QUERY_STRING and as an '
-        'application/x-www-form-urlencoded POST body (Content-Length or chunked; Content-Type with and without a charset parameter; every request is served twice on one application and the handler mutates what it got in between). Oracle: Request.query / Request.forms == expected map '
+        'application/x-www-form-urlencoded POST body (Content-Length or chunked; Content-Type with and without a charset parameter; every request is served twice on one application and the handler mutates what it got in between; before the first access to the form the handler may have read all / part of request.body, moved it to its end, or probed request.json). Plus two threads decoding a 4-pair and a 300 / 1100-field query string or form at the same time under every single-preemption schedule of the small one (deterministic scheduler. Oracle: Request.query / Request.forms == expected map '
         '(single -> str, repeated -> list in submission order), Request.params == {**query, **forms}, parse_qsl() list mode == the pair list. '
         'Totality: parse_qsl(any text) and Request.query on any QUERY_STRING return without raising. Non-trivial = a repeated key, or a key/value '
         'containing one of "=&+%;" / space / non-ASCII / empty value; distinct by case hash.')
@@ -76,7 +76,8 @@ def case_st(draw):
     style = draw(st.lists(st.integers(0, 83), min_size=1, max_size=7))
     return {'query': [list(p) for p in q], 'form': [list(p) for p in f], 'style': style,
             'chunked': draw(st.booleans()), 'method': draw(st.sampled_from(['POST', 'PUT'])),
-            'ctype': draw(st.sampled_from(CTYPES))}
+            'ctype': draw(st.sampled_from(CTYPES)),
+            'pre': draw(st.sampled_from([None, None, None, 'read_all', 'seek_end', 'json', ['read', 1], ['read', 7], ['read', 10000]]))}
 
 
 def _plain(d):
@@ -107,6 +108,16 @@ def check_case(ctx, case):
 
     def h():
         rq = app.request
+        # what happened to the body stream before the form is first asked for (a signature check, a logger, a JSON probe) must not matter
+        pre = case.get('pre')
+        if pre == 'read_all':
+            rq.body.read()
+        elif pre == 'seek_end':
+            rq.body.seek(0, 2)
+        elif pre == 'json':
+            _ = rq.json
+        elif isinstance(pre, list):
+            rq.body.read(pre[1])
         seen['query'] = _plain(rq.query)
         seen['forms'] = _plain(rq.forms)
         seen['params'] = _plain(rq.params)
@@ -141,6 +152,8 @@ def check_case(ctx, case):
                 raise CheckFailure(f'request {reqno}: request.{k} differs for query {qs!r} / body {body!r} (Content-Type {ctype!r}):\n got  {seen[k]!r}\n want {w!r}')
     if 'charset' in ctype.lower():
         ctx.count('content_type_with_charset')
+    if case.get('pre'):
+        ctx.count('body_stream_moved_before_first_form_access')
     allp = q + f
     keys = [k for k, _ in q], [k for k, _ in f]
     rep = any(len(set(ks)) < len(ks) for ks in keys)
@@ -193,14 +206,83 @@ def check_raw(ctx, case):
         ctx.nontrivial('raw:' + s)
 
 
+def check_threaded(ctx, case):
+    """Two threads decode different query strings / forms at the same time (one of them with several hundred distinct field names, more than any
+    bounded memo holds): every single-preemption schedule of the small request, and a stride of the large one."""
+    import ombott
+    from vlib.sched import Scheduler, BIG
+    from checks.c08_threads import relevant
+    from vlib.encoders import encode_chunked
+    small = [('a', '1'), ('b b', 'x&y'), ('a', 'é'), ('k%', '')]
+    many = [('f%d' % i, 'v%d' % i) for i in range(case['n'])] + [('a', 'last')]
+    qs_small, qs_many = encode_pairs(small, [0, 3]), encode_pairs(many, [1])
+
+    import threading
+    app = ombott.Ombott()
+    box = {}
+
+    def h():
+        rq = app.request
+        box[threading.get_ident()] = _plain(rq.query if case['via'] == 'query' else rq.forms)
+        return 'ok'
+    app.route('/t', method=['GET', 'POST'], callback=h)
+
+    def parse(pairs, qs, via):
+        def fn():
+            if via == 'query':
+                env = make_environ('GET', '/t', qs=qs)
+            else:
+                env = make_environ('POST', '/t', body=qs.encode('ascii'), headers={'Content-Type': 'application/x-www-form-urlencoded'})
+            r = call_app(app, env)
+            if r.escaped is not None or r.code != 200:
+                raise CheckFailure(f'answered {r.status!r} {r.errors[-500:]} {fmt_exc(r.escaped) if r.escaped else ""}')
+            return box.pop(threading.get_ident())
+        return fn
+    via = case['via']
+    fa, fb = parse(small, qs_small, via), parse(many, qs_many, via)
+    want = [expected_map(small), expected_map(many)]
+    fa(), fb(), fa()          # whatever the decoder remembers between calls is warm
+
+    def run(schedule):
+        sched = Scheduler([fa, fb], schedule, relevant)
+        res = sched.run()
+        for i in (0, 1):
+            if sched.errors[i] is not None:
+                raise CheckFailure(f'thread {i} decoding its {via} ({"4 pairs" if i == 0 else str(len(many)) + " distinct field names"}) raised under schedule {schedule}: '
+                                   f'{fmt_exc(sched.errors[i])[-600:]}')
+            if res[i] != want[i]:
+                raise CheckFailure(f'thread {i}: request.{via} decoded concurrently differs from what was sent under schedule {schedule}: {str(res[i])[:200]!r}')
+        ctx.evals += 1
+        return sched.yields
+    ya, yb = run([[0, BIG], [1, BIG]])
+    for k in range(0, ya + 1):
+        run([[0, k], [1, BIG], [0, BIG]])
+        ctx.nontrivial(f'thr:{via}:{case["n"]}:a{k}')
+    for k in range(0, yb + 1, max(1, yb // 150)):
+        run([[1, k], [0, BIG], [1, BIG]])
+        ctx.nontrivial(f'thr:{via}:{case["n"]}:b{k}')
+    ctx.count('threaded_single_preemption_schedules', ya + 1 + len(range(0, yb + 1, max(1, yb // 150))))
+
+
 def run(ctx):
     for name, case in load_corpus(ID):
-        ctx.guarded(check_raw if 'raw' in case else check_case, case)
+        ctx.guarded(check_threaded if 'threaded' in case else check_raw if 'raw' in case else check_case, case)
         ctx.count('corpus')
+    if ctx.shard == 0:
+        for via in ('query', 'forms'):
+            for nkeys in (300, 1100):
+                ctx.guarded(check_threaded, {'threaded': True, 'via': via, 'n': nkeys})
+        # the body stream moved in every way before the first access to the form
+        for pre in (None, 'read_all', 'seek_end', 'json', ['read', 1], ['read', 7], ['read', 10000]):
+            for chunked in (False, True):
+                ctx.guarded(check_case, {'query': [['q', '1']], 'form': [['first', 'one two'], ['k', 'é&='], ['first', '2']], 'style': [0, 1, 2], 'chunked': chunked,
+                                         'method': 'POST', 'ctype': 'application/x-www-form-urlencoded', 'pre': pre})
     n = 2000 if ctx.tier == 'quick' else 25000
     ctx.hyp(case_st(), check_case, n, label='pairs')
     ctx.hyp(RAW.map(lambda s: {'raw': s}), check_raw, n, label='raw')
 
 
 def replay(ctx, case):
+    if 'threaded' in case:
+        return check_threaded(ctx, case)
     (check_raw if 'raw' in case else check_case)(ctx, case)
